@@ -148,6 +148,8 @@ func runC04(c *Ctx) {
 	}
 	c.account(r)
 	c.Cov["tlc_burst_windows"] = 8 * 65535
+	headerModel(c)
+	headerConformance(c)
 
 	rng := newRng(c.Seed)
 	pool := validPool(p, sch, rng, c.pick(900, 3000), c.pick(6, 20))
